@@ -624,6 +624,16 @@ def r8(ctx):
     """'...ends that session cleanly and serves the next one': see engine.session_start_resets."""
     session_start_resets(ctx)
 
+def r9(ctx):
+    """Three shared rules whose violation shows up as a crash or a wedge of the task rather than (only) as wrong data: a dangling
+    VecList link makes a released record be cleared twice (counter underflow panic) - C03.R10; an echo whose length refers to one tx
+    buffer and whose bytes are taken from the other indexes past a smaller buffer (unwrap panic) - C05.R3; the header iterator that
+    decode logging re-runs must stop at the first bad header (else it spins on input it cannot consume) - C09.R6."""
+    import c03, c05, c09
+    c03.r10(ctx)
+    c05.r3(ctx)
+    c09.r6(ctx)
+
 RULES = [
     ("C01.R1", "T1", "every panic site reachable from a spawned task is auto-discharged or reviewed", r1),
     ("C01.R3", "T8", "the length later unwrapped from the tx buffer is the length written", r3),
@@ -632,4 +642,5 @@ RULES = [
     ("C01.R6", "T2/T8", "index ranges taken from the wire are ordered before they reach BTreeMap::range (supports reviewed sites)", r6),
     ("C01.R7", "T2/T2-loop", "an oversized or damaged segment stream and ignored fragments cannot wedge a task: assembler overflow discards (C08.R3), response deadlines fixed before the wait loop (C16.R8)", r7),
     ("C01.R8", "T2", "reader state is reset before a session's first await (a pre-empted session is dropped without clean-up)", r8),
+    ("C01.R9", "T2/T8", "list unlink, echo buffer provenance and header-iteration termination (shared with C03.R10, C05.R3, C09.R6): their failure modes are a panic or a spin", r9),
 ]
